@@ -365,10 +365,20 @@ ArmAll(st, s, tids, i) ==
   IF i > Len(tids) THEN st
   ELSE ArmAll(Log(st, L("arm", s, D.trans[tids[i]].key, {})), s, tids, i + 1)
 
+\* invoked services (async engine: one task per invocation, created at entry; the harness logs the
+\* _invoke_service call).  A missing implementation aborts the entry.
+RECURSIVE InvokeAll(_, _, _, _)
+InvokeAll(st, s, invs, i) ==
+  IF i > Len(invs) \/ Failed(st) THEN st
+  ELSE IF invs[i].src \notin D.serviceImpl
+       THEN [st EXCEPT !.err = <<"ImplementationMissingError", "service", invs[i].src>>]
+       ELSE InvokeAll(Log(st, L("invoke", s, invs[i].id, {})), s, invs, i + 1)
+
 Schedule(st, s, eng) ==
   IF Failed(st) THEN st
   ELSE LET st1 == Log(st, L("sched", s, "", {}))
-       IN IF eng = "pure" THEN st1 ELSE ArmAll(st1, s, D.tix[s].after, 1)
+       IN IF eng = "pure" THEN st1
+          ELSE InvokeAll(ArmAll(st1, s, D.tix[s].after, 1), s, D.invokes[s], 1)
 CancelTasks(st, s) == Log(st, L("cancel", s, "", {}))
 
 RECURSIVE Rearm(_, _, _, _)
@@ -602,14 +612,18 @@ SyncDrain(st, gv, n, eng) ==
 \* `fuel` bounds the number of events one public step may dequeue: the harness
 \* aborts a real run at the same count, and both sides then report "Diverged".
 \* (A finite chain longer than D.fuel is reported the same way on both sides.)
-RECURSIVE AsyncLoop(_, _, _)
-AsyncLoop(st, gv, fuel) ==
-  IF st.status # "running" \/ st.queue = <<>> THEN st
+\* AsyncLoopFrom(st, gv, fuel, blocked): `blocked` = the consumer task is already waiting inside
+\* queue.get(); the event that wakes it is processed even if the status stopped being "running" in the
+\* meantime (the while-condition is only evaluated at the top of the loop)
+RECURSIVE AsyncLoopFrom(_, _, _, _)
+AsyncLoop(st, gv, fuel) == AsyncLoopFrom(st, gv, fuel, FALSE)
+AsyncLoopFrom(st, gv, fuel, blocked) ==
+  IF (st.status # "running" /\ ~blocked) \/ st.queue = <<>> THEN st
   ELSE IF fuel = 0 THEN [st EXCEPT !.err = <<"Diverged">>]
   ELSE LET ev == Head(st.queue)
            st0 == [st EXCEPT !.queue = Tail(@)]
        IN IF st0.rd > D.maxIter
-          THEN AsyncLoop(Log([st0 EXCEPT !.rd = 0], L("cut_raise", "", "", {})), gv, fuel - 1)
+          THEN AsyncLoopFrom(Log([st0 EXCEPT !.rd = 0], L("cut_raise", "", "", {})), gv, fuel - 1, FALSE)
           ELSE LET st1 == Log(st0, L("event", ev.type, "", {}))
                    before == st1.rd
                    st2 == ProcessEvent(st1, ev, gv, "async", TRUE)
@@ -619,7 +633,7 @@ AsyncLoop(st, gv, fuel) ==
                    st4 == IF Failed(st3)
                           THEN Log([st3 EXCEPT !.err = NoErr], L("loop_error", st3.err[1], "", {}))
                           ELSE IF st3.rd = before THEN [st3 EXCEPT !.rd = 0] ELSE st3
-               IN IF st4.slow > 0 THEN st4 ELSE AsyncLoop(st4, gv, fuel - 1)
+               IN IF st4.slow > 0 THEN st4 ELSE AsyncLoopFrom(st4, gv, fuel - 1, FALSE)
 
 --------------------------------------------------------------------------
 (* Public steps, as functions from a quiescent state                        *)
